@@ -175,7 +175,14 @@ fn build_kind(kind: &str, no_embed: bool) -> Result<(Signed, Arc<Context>), Stri
                 .set_parameter("redacted", &uri)
                 .map_err(|e| e.to_string())?;
             bu.add_action(act).map_err(|e| e.to_string())?;
-            sign(bu, "ed25519", &a, no_embed)?
+            let mut s = sign(bu, "ed25519", &a, no_embed)?;
+            if no_embed {
+                // the update manifest has no hard binding of its own; A's data hash was made for the asset
+                // with A's store embedded, whereas the no_embed output has that store stripped. The sidecar
+                // is therefore validated against the asset A was signed into.
+                s.asset = a;
+            }
+            s
         }
         // box-hashed + Brotli-compressed manifest box
         "compressed" => sign(builder(&ctx, &definition("compressed", 2), create)?, "ed25519", &src, no_embed)?,
@@ -438,6 +445,24 @@ fn first_diff(a: &Value, b: &Value, path: &str) -> Option<String> {
     }
 }
 
+/// Short stable token for a report difference: last key of the path + kind of change
+/// (`/json/manifests/urn…/ingredients[0]/thumbnail: removed` -> `thumbnail-removed`).
+fn diff_token(d: &str) -> String {
+    let (path, change) = d.split_once(": ").unwrap_or((d, ""));
+    let last = path.rsplit('/').next().unwrap_or("");
+    let key: String = last.chars().take_while(|c| *c != '[').filter(|c| c.is_ascii_alphanumeric() || *c == '_').take(24).collect();
+    let kind = if change.starts_with("removed") {
+        "removed"
+    } else if change.starts_with("added") {
+        "added"
+    } else if change.starts_with("length") {
+        "length"
+    } else {
+        "changed"
+    };
+    format!("{}-{kind}", if key.is_empty() { "root" } else { &key })
+}
+
 fn describe(t: &Target, m: &Mutation) -> (String, usize, usize) {
     // (text, start, end) of the changed span in the original
     match m {
@@ -578,15 +603,16 @@ fn judge_inner(run: &Sink, targets: &BTreeMap<String, Target>, selftest: bool, c
         ));
     }
     if rep != t.base_report || v != t.base_verdict {
+        let diff = first_diff(&t.base_report, &rep, "").unwrap_or_else(|| "verdict codes".into());
         let what = if v != t.base_verdict {
             let gone: Vec<&String> = t.base_verdict.codes.iter().filter(|x| !v.codes.contains(x)).take(3).collect();
             let new: Vec<&String> = v.codes.iter().filter(|x| !t.base_verdict.codes.contains(x)).take(3).collect();
-            format!("verdict {} -> {}; codes gone {gone:?}, new {new:?}", t.base_verdict.state, v.state)
+            format!("verdict {} -> {}; codes gone {gone:?}, new {new:?}; first report difference {diff}", t.base_verdict.state, v.state)
         } else {
-            first_diff(&t.base_report, &rep, "").unwrap_or_default()
+            diff.clone()
         };
         return Err(Fail::new(
-            format!("C02:report-changed-still-valid:{}:{}", region(&t.boxes, lo), t.kind),
+            format!("C02:report-changed-still-valid:{}:{}:{}", region(&t.boxes, lo), diff_token(&diff), t.kind),
             format!("{}: {text} (class {detail}, box {path}): state {} (was {}), report differs: {what}", t.name, v.state, t.base_verdict.state),
         ));
     }
@@ -652,13 +678,122 @@ fn cases_for(t: &Target, run: &Run, thorough_all_bits: bool, flips_budget: usize
     v
 }
 
+// ------------------------------------------------------------------------------------------------
+// worker processes: the SDK serialises certificate / signature work behind a process-wide OpenSSL mutex, so
+// threads do not scale; the parent builds the stores, writes them to /verif/work/C02 and runs N copies of
+// itself (VERIF_C02_WORKER=i/N), each evaluating every N-th case; the outcomes are fed to the Run through
+// the normal driver.
+// ------------------------------------------------------------------------------------------------
+
+const WORK: &str = "/verif/work/C02";
+
+#[derive(Serialize, Deserialize, Default)]
+struct WorkerOut {
+    class_names: Vec<String>,
+    /// (case index, non-trivial, class ids)
+    recs: Vec<(u32, bool, Vec<u16>)>,
+    /// (case index, signature, what)
+    fails: Vec<(u32, String, String)>,
+}
+
+fn mode_name(m: Mode) -> &'static str {
+    if m == Mode::Embedded {
+        "jpeg"
+    } else {
+        "sidecar"
+    }
+}
+
+fn save_targets(targets: &BTreeMap<String, Target>) -> Result<(), String> {
+    let _ = std::fs::remove_dir_all(WORK);
+    std::fs::create_dir_all(WORK).map_err(|e| e.to_string())?;
+    let mut list = vec![];
+    for (n, t) in targets.values().enumerate() {
+        std::fs::write(format!("{WORK}/t{n}.asset"), &t.asset).map_err(|e| e.to_string())?;
+        std::fs::write(format!("{WORK}/t{n}.store"), &t.store).map_err(|e| e.to_string())?;
+        list.push(json!({"n": n, "kind": t.kind, "mode": mode_name(t.mode)}));
+    }
+    std::fs::write(format!("{WORK}/targets.json"), Value::Array(list).to_string()).map_err(|e| e.to_string())
+}
+
+fn load_targets() -> Result<BTreeMap<String, Target>, String> {
+    let txt = std::fs::read_to_string(format!("{WORK}/targets.json")).map_err(|e| e.to_string())?;
+    let list: Vec<Value> = serde_json::from_str(&txt).map_err(|e| e.to_string())?;
+    let mut out = BTreeMap::new();
+    for e in list {
+        let n = e["n"].as_u64().unwrap_or(0);
+        let kind = KINDS.iter().copied().find(|k| Some(*k) == e["kind"].as_str()).ok_or("bad kind")?;
+        let mode = if e["mode"] == "jpeg" { Mode::Embedded } else { Mode::Sidecar };
+        let asset = std::fs::read(format!("{WORK}/t{n}.asset")).map_err(|e| e.to_string())?;
+        let store = std::fs::read(format!("{WORK}/t{n}.store")).map_err(|e| e.to_string())?;
+        let ctx = Arc::new(sdk::context_with(&settings(kind == "compressed")));
+        let t = target_from(kind, mode, ctx, asset, store)?;
+        out.insert(t.name.clone(), t);
+    }
+    Ok(out)
+}
+
+fn all_cases(run: &Run, targets: &BTreeMap<String, Target>) -> Vec<Case> {
+    let mut cases = vec![];
+    for t in targets.values() {
+        cases.extend(cases_for(t, run, !run.quick(), 4000));
+    }
+    cases
+}
+
+fn worker(run: &Run, spec: &str, selftest: bool) -> ! {
+    let (i, n) = spec.split_once('/').map(|(a, b)| (a.parse::<usize>().unwrap_or(0), b.parse::<usize>().unwrap_or(1))).unwrap_or((0, 1));
+    let targets = match load_targets() {
+        Ok(t) => t,
+        Err(e) => {
+            eprintln!("worker {spec}: {e}");
+            std::process::exit(3);
+        }
+    };
+    let cases = all_cases(run, &targets);
+    let trace = std::env::var("VERIF_TRACE").is_ok();
+    let mut out = WorkerOut::default();
+    for (k, c) in cases.iter().enumerate() {
+        if k % n != i {
+            continue;
+        }
+        let o = judge(&targets, selftest, c);
+        let ids: Vec<u16> = o
+            .classes
+            .iter()
+            .map(|c| match out.class_names.iter().position(|x| x == c) {
+                Some(p) => p as u16,
+                None => {
+                    out.class_names.push(c.clone());
+                    (out.class_names.len() - 1) as u16
+                }
+            })
+            .collect();
+        out.recs.push((k as u32, o.nontrivial, ids));
+        if let Err(f) = o.res {
+            if trace {
+                eprintln!("FAIL {} {}", f.signature, f.what);
+            }
+            out.fails.push((k as u32, f.signature, f.what));
+        }
+    }
+    let txt = serde_json::to_string(&out).unwrap_or_default();
+    if std::fs::write(format!("{WORK}/out-{i}.json"), txt).is_err() {
+        std::process::exit(3);
+    }
+    std::process::exit(0);
+}
+
 fn main() {
     vh::quiet_panics();
     let run = Run::from_args("C02", "exploration");
     let selftest = std::env::var("VERIF_SELFTEST").map(|v| v == "1").unwrap_or(false);
+    if let Ok(spec) = std::env::var("VERIF_C02_WORKER") {
+        worker(&run, &spec, selftest);
+    }
     run.set_rule("cases = (signed store, mutation). Stores: single v2 manifest (CBOR, JSON and embedded-file assertions, ed25519), ingredient chain D<-B<-A plus two components (ed25519/ps256/es256, v1 and v2 claims), update manifest with a redaction, Brotli-compressed box-hashed manifest, v1 claim with a data box (es256), plain v1 ps256; each embedded in a JPEG and as sidecar. Mutations: single bit flips (quick: every byte of box headers, description boxes, COSE framing/signature and claim CBOR, a quarter of COSE protected, seeded sample of the rest; thorough: every bit of every byte) and JUMBF structure edits (sibling swap, duplicate, delete, cross-manifest copy, label character, UUID byte, toggle bits, length field +-n with/without fixed parents, XLBox header, LBox=0, inserted free/unknown/cbor/json boxes). Non-trivial = the changed span touches bytes that a hash or the signature commits to (claim CBOR, assertion/databox/credential content, COSE protected/signature, description label/uuid/salt, compressed payload).");
     run.assume("the original stores are produced by the SDK's own Builder and read back as Trusted with the fixture trust anchors");
-    run.assume("two reads of identical bytes give identical reports apart from validation_time (checked once per store)");
+    run.assume("two reads of identical bytes give identical reports apart from validation_time and the listing order of validation status entries / ingredient deltas (checked once per store)");
     run.assume("re-embedding a same-length store through jumbf_io::save_jumbf_to_memory changes only the store bytes of the JPEG (checked once per store)");
     run.assume("a read that panics is counted as a failed read (robustness is judged by other properties)");
 
@@ -671,7 +806,6 @@ fn main() {
     ];
     let all_targets: Vec<(&'static str, Mode)> = KINDS.iter().flat_map(|k| [(*k, Mode::Embedded), (*k, Mode::Sidecar)]).collect();
     let wanted = if run.replay.is_some() || !run.quick() { all_targets } else { quick_targets };
-    let t_build = std::time::Instant::now();
     let mut targets: BTreeMap<String, Target> = BTreeMap::new();
     for (k, m) in wanted {
         match vh::catch(|| build_target(k, m)) {
@@ -695,23 +829,90 @@ fn main() {
             }
         }
     }
-    run.extra("build_stores_s", json!(t_build.elapsed().as_secs_f64()));
-    let mut cases = vec![];
+    let cases = all_cases(&run, &targets);
     for t in targets.values() {
-        let c = cases_for(t, &run, !run.quick(), 4000);
-        run.count_n(&format!("cases:{}", t.name), c.len() as u64);
-        cases.extend(c);
+        run.count_n(&format!("cases:{}", t.name), cases.iter().filter(|c| c.target == t.name).count() as u64);
     }
-    let threads = std::env::var("VERIF_THREADS").ok().and_then(|v| v.parse().ok()).unwrap_or(run.scale(8, 16));
-    let trace = std::env::var("VERIF_TRACE").is_ok();
-    run.drive_enum_par("store_mutation", cases, threads, |c| {
-        let r = judge(&run, &targets, selftest, c);
-        if trace {
-            if let Err(f) = &r {
-                eprintln!("FAIL {} {}", f.signature, f.what);
+
+    // ---- evaluate in worker processes --------------------------------------------------------------
+    let mut table: std::collections::HashMap<u64, (bool, Vec<String>, CaseResult)> = std::collections::HashMap::new();
+    if run.replay.is_none() {
+        let n = std::env::var("VERIF_PROCS").ok().and_then(|v| v.parse().ok()).unwrap_or(run.scale(8usize, 16usize)).max(1);
+        let mut ok = save_targets(&targets).is_ok();
+        let exe = std::env::current_exe().ok();
+        let mut kids = vec![];
+        if let (true, Some(exe)) = (ok, exe) {
+            for i in 0..n {
+                match std::process::Command::new(&exe)
+                    .arg(if run.quick() { "quick" } else { "thorough" })
+                    .env("VERIF_C02_WORKER", format!("{i}/{n}"))
+                    .stdout(std::process::Stdio::null())
+                    .spawn()
+                {
+                    Ok(c) => kids.push(c),
+                    Err(_) => ok = false,
+                }
+            }
+        } else {
+            ok = false;
+        }
+        for mut k in kids {
+            match k.wait() {
+                Ok(st) if st.success() => {}
+                _ => ok = false,
             }
         }
-        r
+        if ok {
+            for i in 0..n {
+                let parsed: Option<WorkerOut> = std::fs::read_to_string(format!("{WORK}/out-{i}.json")).ok().and_then(|t| serde_json::from_str(&t).ok());
+                let Some(w) = parsed else {
+                    ok = false;
+                    break;
+                };
+                let mut fails: std::collections::HashMap<u32, (String, String)> = w.fails.into_iter().map(|(k, s, t)| (k, (s, t))).collect();
+                for (k, nt, ids) in w.recs {
+                    let Some(c) = cases.get(k as usize) else {
+                        ok = false;
+                        continue;
+                    };
+                    let classes = ids.iter().filter_map(|i| w.class_names.get(*i as usize).cloned()).collect();
+                    let res = match fails.remove(&k) {
+                        Some((s, t)) => Err(Fail::new(s, t)),
+                        None => Ok(()),
+                    };
+                    table.insert(vh::digest(c), (nt, classes, res));
+                }
+            }
+        }
+        if !ok {
+            run.inconclusive("worker processes failed; cases are evaluated in this process");
+            table.clear();
+        } else if table.len() != cases.iter().map(vh::digest).collect::<std::collections::HashSet<_>>().len() {
+            run.inconclusive("worker processes did not return an outcome for every case");
+        }
+        let _ = std::fs::remove_dir_all(WORK);
+    }
+    let table = std::sync::Mutex::new(table);
+    run.drive_enum_par("store_mutation", cases, 4, |c| {
+        let pre = table.lock().unwrap().remove(&vh::digest(c));
+        let (nt, classes, res) = match pre {
+            Some(x) => x,
+            None => {
+                // regression / replay cases, duplicates, or fall-back when the workers failed
+                let o = judge(&targets, selftest, c);
+                (o.nontrivial, o.classes, o.res)
+            }
+        };
+        for cl in &classes {
+            run.count(cl);
+            if cl == LAYOUT_CHANGED {
+                run.inconclusive(format!("{}: store layout differs from the one the case was recorded for", c.target));
+            }
+        }
+        if nt {
+            run.nontrivial(c);
+        }
+        res
     });
     if !run.quick() {
         // every bit of every byte of the listed stores was flipped
